@@ -6,7 +6,8 @@
    (harness/wrapper_drv.cpp; the conventions of that driver are repeated below).
 
    Configuration: flavour, mutex kind, the enableLocking flag of the _opt flavours, the
-   initial payload and the throw plan (global indices of user-code invocations that throw).
+   initial payload, the payload kind (instrumented vs::WPay / plain long) and the throw plan
+   (global indices of user-code invocations that throw).
 
    Every thread owns NSLOTS handle slots.  A slot is empty or holds a handle object
    {type (lock_handle / shared_lock_handle); data != nullptr; lock object owns}.
@@ -28,7 +29,9 @@ Local Open Scope Z_scope.
 (* ---------- configuration ---------- *)
 Inductive flavour := FGuarded | FGuardedOpt | FShared | FSharedOpt | FOrdered | FAtomic.
 Inductive mkind := MPlain | MTimed | MShared | MSharedTimed.
-Record config := Cfg { flav : flavour; mk : mkind; en : bool; init_val : Z; throws : list nat }.
+(* plain: the wrapped type is a plain `long` (trivially copyable, no user code in copy / assignment): its
+   accesses are not visible operations - no window events, no K_CALL 900 / 901 *)
+Record config := Cfg { flav : flavour; mk : mkind; en : bool; init_val : Z; throws : list nat; plain : bool }.
 
 Definition is_opt (f : flavour) : bool := match f with FGuardedOpt | FSharedOpt => true | _ => false end.
 (* handles really lock: every flavour except an _opt one constructed with enableLocking = false *)
@@ -96,20 +99,26 @@ Definition P_XCHG := 100. Definition P_EXP := 200.   (* object ids of the tempor
 (* whole-object operations: is the guard a shared-type lock (shared_locker), and the body *)
 Definition wop_code (cf : config) (o : op) : option (bool * list mi) :=
   let f := flav cf in
+  let pl := plain cf in
   match o with
-  | Load => if has_ls f then Some (match f with FOrdered => true | _ => false end, [MCall FID_COPY false; MRead]) else None
-  | Cast => if has_cast f then Some (false, [MCall FID_COPY false; MRead]) else None
-  | Store v | Assign v => if has_ls f then Some (false, [MCall FID_ASSIGN false; MWrite Obj (Const v)]) else None
+  | Load => if has_ls f then Some (match f with FOrdered => true | _ => false end,
+                                   if pl then [MRead] else [MCall FID_COPY false; MRead]) else None
+  | Cast => if has_cast f then Some (false, if pl then [MRead] else [MCall FID_COPY false; MRead]) else None
+  | Store v | Assign v =>
+    if has_ls f then Some (false, if pl then [MWrite Obj (Const v)] else [MCall FID_ASSIGN false; MWrite Obj (Const v)]) else None
   | Modify fid => if has_fn f then Some (false, [MCall fid false; MIncr]) else None
   | ReadF fid => if has_fn f then Some (true, [MCall fid false; MRead]) else None
   | Exchange v => if has_xc f then
-      Some (false, [MCall FID_ASSIGN true; MWrite (Priv P_XCHG) Reg; MCall FID_ASSIGN false; MWrite Obj (Const v)]) else None
+      Some (false, if pl then [MRead; MWrite Obj (Const v)]
+                   else [MCall FID_ASSIGN true; MWrite (Priv P_XCHG) Reg; MCall FID_ASSIGN false; MWrite Obj (Const v)]) else None
   | Cas e d => if has_xc f then Some (false, [MRead; MReadE e d]) else None
   | _ => None
   end.
 Definition cas_branch (ok : bool) (d : Z) : list mi :=
   if ok then [MCall FID_ASSIGN false; MWrite Obj (Const d)]
   else [MCall FID_ASSIGN false; MRead; MWrite (Priv P_EXP) Reg].
+Definition cas_branch_plain (ok : bool) (d : Z) : list mi :=
+  if ok then [MWrite Obj (Const d)] else [MRead].
 Definition wop_ret (o : op) (r : Z) (ok : bool) : Z :=
   match o with
   | Load | Cast | Exchange _ => r
@@ -281,12 +290,13 @@ Definition exec_mi (cf : config) (t : nat) (i : mi) (ph : nat) (r : Z) (ok : boo
     let o := P_EXP + Z.of_nat t in
     match ph with
     | O => MRes g [E K_RD_BEGIN o 0] r ok false false None
-    | _ => let okk := Z.eqb r e in MRes g [E K_RD_END o e] r okk true false (Some (cas_branch okk d))
+    | _ => let okk := Z.eqb r e in MRes g [E K_RD_END o e] r okk true false (Some (if plain cf then cas_branch_plain okk d else cas_branch okk d))
     end
   end.
 
 (* ---------- the step function ---------- *)
-Definition tstep (cf : config) (t c : nat) (g : glob) (l : loc) : option (glob * loc * list ev) :=
+(* tstep0: one visible operation of the instrumented payload kind (every window edge is a step) *)
+Definition tstep0 (cf : config) (t c : nat) (g : glob) (l : loc) : option (glob * loc * list ev) :=
   let goto p := Loc (prog l) p (slots l) in
   let sl := slots l in
   match at_ l with
@@ -434,6 +444,36 @@ Definition tstep (cf : config) (t c : nat) (g : glob) (l : loc) : option (glob *
     end
   end.
 
+(* The plain payload kind: the accesses of the wrapped object are not visible operations, so the code between
+   two visible operations runs in the step of the first one.  A step of the plain kind is a step of tstep0
+   followed by the (window) steps of the same thread up to its next visible operation - a user-code call, the
+   release of the guard, or the end of the operation; the window events of those steps are not emitted. *)
+Definition silent_pc (p : pc) : bool :=
+  match p with
+  | Run _ (MCall _ _ :: _) _ _ _ => false
+  | Run _ _ _ _ _ => true
+  | _ => false
+  end.
+Definition vis_ev (e : ev) : bool :=
+  negb ((ek e =? K_RD_BEGIN) || (ek e =? K_RD_END) || (ek e =? K_WR_BEGIN) || (ek e =? K_WR_END)).
+Fixpoint settle (cf : config) (t : nat) (fuel : nat) (g : glob) (l : loc) (es : list ev) : glob * loc * list ev :=
+  match fuel with
+  | O => (g, l, es)
+  | S f =>
+    if silent_pc (at_ l) then
+      match tstep0 cf t 0 g l with
+      | Some (g', l', es') => settle cf t f g' l' (es ++ filter vis_ev es')
+      | None => (g, l, es)
+      end
+    else (g, l, es)
+  end.
+Definition SETTLE_FUEL : nat := 24.
+Definition tstep (cf : config) (t c : nat) (g : glob) (l : loc) : option (glob * loc * list ev) :=
+  match tstep0 cf t c g l with
+  | None => None
+  | Some (g1, l1, es) => if plain cf then Some (settle cf t SETTLE_FUEL g1 l1 es) else Some (g1, l1, es)
+  end.
+
 Definition fin (l : loc) : bool := match at_ l, prog l with Idle, [] => true | _, _ => false end.
 
 Definition init (cf : config) (progs : list (list op)) : sys glob loc :=
@@ -472,7 +512,7 @@ Definition decode_cfg (c : list Z) : config :=
   Cfg (if f =? 0 then FGuarded else if f =? 1 then FGuardedOpt else if f =? 2 then FShared
        else if f =? 3 then FSharedOpt else if f =? 4 then FOrdered else FAtomic)
       (if k =? 0 then MPlain else if k =? 1 then MTimed else if k =? 2 then MShared else MSharedTimed)
-      (negb (nth 2 c 0 =? 0)) (nth 3 c 0) (map zn (skipn 4 c)).
+      (negb (nth 2 c 0 =? 0)) (nth 3 c 0) (map zn (skipn 5 c)) (negb (nth 4 c 0 =? 0)).
 
 Definition final (s : sys glob loc) : list line :=
   let g := gl s in
